@@ -28,6 +28,15 @@ def das():
 
 
 def cases(rng, tier):
+    # duplicates of objects with built-up state: every way of copying x every kind of state
+    for l in core.copy_cases(rng, 2 if tier == "quick" else 12, ['scd']):
+        yield Case([l], {"kind": "duplicate-of-object"})
+    # the same query several times in a row on one object
+    for c in gen.repeated_call_cases(rng, 8 if tier == "quick" else 60, ['scd'], gen.CLAMP_BAND[:8] if False else ()):
+        yield c
+    # very long chains (> 1000 residues, lengths that are not round numbers)
+    for sq in gen.very_long(rng, tier != "quick"):
+        yield Case(["q %s %s%s" % (q.split(" ")[0], sq, "".join(" " + a for a in q.split(" ")[1:])) for q in ['scd']], {"kind": "very-long"})
     # objects built from sequence files (two per block)
     for c in gen.file_cases(rng, 12 if tier == "quick" else 100, ['scd']):
         yield c
@@ -65,7 +74,7 @@ def judge(case, reals, gens, specs):
     if reals[0][0] == "childq":
         ok_c, why = core.judge_childq(reals[0])
         return [] if ok_c else [("violation", 0, why)]
-    if case.tags.get("kind") in ("after-other-calls", "after-calls-on-another-object", "object-from-file"):
+    if case.tags.get("kind") in ("after-other-calls", "after-calls-on-another-object", "object-from-file", "object-from-big-file", "very-long", "repeated-calls"):
         from ..runner import default_judge
         return default_judge(None, case, reals, gens, specs)      # (only the final scd line: judge_from)
     r, g, s = reals[0], gens[0], specs[0]
